@@ -1214,6 +1214,7 @@ func (vfs *MemFS) Sub(dir string) (avfs.VFS, error) {
 
 	subFS := *vfs
 	subFS.rootNode = c
+	subFS.volumes = vfs.subVolumes(dir, c)
 
 	return &subFS, nil
 }
